@@ -222,11 +222,11 @@ class SimplicialComplex(Hypergraph):
         """Helper function to add a simplex to a simplicial complex, without any
         check. Does not automatically update self._edge_uid"""
 
+        if None in members:
+            raise XGIError("None cannot be a node or edge")
         self._edge[idx] = set()
         for node in members:
             if node not in self._node:
-                if node is None:
-                    raise ValueError("None cannot be a node")
                 self._node[node] = set()
                 self._node_attr[node] = self._node_attr_dict_factory()
             self._node[node].add(idx)
@@ -603,9 +603,12 @@ class SimplicialComplex(Hypergraph):
                 continue
 
             try:
-                self._edge[idx] = frozenset(members)
+                member_set = frozenset(members)
             except TypeError as e:
                 raise XGIError("Invalid ebunch format") from e
+            if None in member_set:
+                raise XGIError("None cannot be a node or edge")
+            self._edge[idx] = member_set
 
             for n in members:
                 if n not in self._node:
